@@ -4,7 +4,7 @@
 
 use jiff::civil::{Date, DateTime};
 use jiff::tz::TimeZone;
-use jiff::{RoundMode, Span, SpanRound, Timestamp, Unit, Zoned};
+use jiff::{RoundMode, SignedDuration, Span, SpanRound, Timestamp, Unit, Zoned};
 use std::io::Write;
 
 struct Rng(u64);
@@ -81,8 +81,39 @@ fn main() {
         r.next();
     }
     let zones: Vec<TimeZone> = ZONES.iter().filter_map(|z| TimeZone::posix(z).ok()).collect();
-    let mut log = std::io::BufWriter::new(std::fs::File::create(if case.is_some() { "/dev/null".to_string() } else { format!("{}.c11n", out) }).expect("log file"));
     let mut evals = 0u64;
+    let mut log = std::io::BufWriter::new(std::fs::File::create(if case.is_some() { "/dev/null".to_string() } else { format!("{}.c11n", out) }).expect("log file"));
+    std::panic::set_hook(Box::new(|_| {}));
+    if args.get(1).map(|s| s.as_str()) == Some("c12") {
+        // SignedDuration <-> float conversions (trunc / fract / round of the no-std float routines)
+        for i in 0..n {
+            let f = gen_f64(&mut r);
+            let g = gen_f64(&mut r);
+            let d = SignedDuration::new(r.range(-4_000_000_000, 4_000_000_000), r.range(0, 999_999_999) as i32);
+            let sd = |x: Result<SignedDuration, jiff::Error>| x.map(|d| format!("{}s{}ns", d.as_secs(), d.subsec_nanos())).unwrap_or_else(|_| "Err".into());
+            let small = if g.is_finite() && g.abs() < 1e6 && g.abs() > 1e-6 { g } else { 1.5 };
+            let line = format!(
+                "{}\t{:016x}\t{}\t{}\t{:016x}\t{:08x}\t{}\t{}",
+                i,
+                f.to_bits(),
+                sd(SignedDuration::try_from_secs_f64(f)),
+                sd(SignedDuration::try_from_secs_f32(f as f32)),
+                d.as_secs_f64().to_bits(),
+                d.as_secs_f32().to_bits(),
+                std::panic::catch_unwind(|| d.mul_f64(small)).map(|d| sd(Ok(d))).unwrap_or_else(|_| "panic".into()),
+                std::panic::catch_unwind(|| d.div_f64(small)).map(|d| sd(Ok(d))).unwrap_or_else(|_| "panic".into()),
+            );
+            evals += 6;
+            let _ = writeln!(log, "{}", line);
+            if case.is_some() && i + 1 == n {
+                println!("{}", line);
+                return;
+            }
+        }
+        let _ = log.flush();
+        finish(&out, "c12", &flavour, seed, si, sn, evals, n, 0);
+        return;
+    }
     let mut errs = 0u64;
     for i in 0..n {
         let span = gen_span(&mut r);
@@ -135,13 +166,32 @@ fn main() {
     }
     let _ = log.flush();
     let _ = Timestamp::UNIX_EPOCH;
-    // a minimal shard report in the format the driver merges
+    finish(&out, "c11", &flavour, seed, si, sn, evals, n, errs);
+}
+
+fn gen_f64(r: &mut Rng) -> f64 {
+    match r.below(8) {
+        0 => f64::from_bits(r.next()),
+        1 => r.range(-4_000_000_000, 4_000_000_000) as f64,
+        // halves of a nanosecond and values just beside them
+        2 => r.range(-4_000_000, 4_000_000) as f64 + (r.range(0, 2_000_000_000) as f64 + 0.5) * 0.5e-9,
+        3 => (r.range(-1_000_000_000_000, 1_000_000_000_000) as f64) * 1e-9,
+        4 => (i64::MAX as f64) * [1.0, -1.0, 0.5, -0.5, 0.999999, 1.000001][r.below(6) as usize],
+        5 => f64::from_bits((r.next() & 0x800F_FFFF_FFFF_FFFF) | ((1023 + r.below(70)) << 52)),
+        6 => [0.0, -0.0, 0.5, -0.5, 1.0, -1.0, 0.999999999, 0.9999999995, -0.9999999995, 1e-9, 0.5e-9, 0.49e-9, f64::NAN, f64::INFINITY, f64::NEG_INFINITY, f64::MIN_POSITIVE][r.below(16) as usize],
+        _ => (r.range(-100_000, 100_000) as f64) / (1 + r.below(1000)) as f64,
+    }
+}
+
+/// A minimal shard report in the format the driver merges.
+#[allow(clippy::too_many_arguments)]
+fn finish(out: &str, prop: &str, flavour: &str, seed: u64, si: u64, sn: u64, evals: u64, n: u64, errs: u64) {
     let rep = format!(
-        "{{\"property\":\"c11\",\"flavour\":\"{}\",\"seed\":{},\"shard\":{},\"nshards\":{},\"evaluations\":{},\"distinct_nontrivial\":0,\"nt_overflow\":0,\"samples\":[],\"counters\":{{\"nostd_cases\":{},\"nostd_errs\":{}}},\"violations\":[],\"violations_total\":0,\"inconclusive\":[],\"notes\":[]}}",
-        flavour, seed, si, sn, evals, n, errs
+        "{{\"property\":\"{}\",\"flavour\":\"{}\",\"seed\":{},\"shard\":{},\"nshards\":{},\"evaluations\":{},\"distinct_nontrivial\":0,\"nt_overflow\":0,\"samples\":[],\"counters\":{{\"nostd_cases\":{},\"nostd_errs\":{}}},\"violations\":[],\"violations_total\":0,\"inconclusive\":[],\"notes\":[]}}",
+        prop, flavour, seed, si, sn, evals, n, errs
     );
     if out != "/dev/null" {
-        let _ = std::fs::write(&out, rep);
+        let _ = std::fs::write(out, rep);
     }
     println!("jvn {}: {} cases", if cfg!(feature = "std") { "std" } else { "no-std" }, n);
 }
